@@ -51,9 +51,12 @@ def l2_family(run_, exe, scns, judge, cls=None, compare=True, label="L2", **kw):
 
 def finish(run_, prop, bad, mism, known=None, corr_name="L2 whole-program runs (Driver.v / World.v)"):
     """bad entries may be (i, desc, rep) ; known(desc, rep) -> key or None"""
+    listed = {k_["key"] for k_ in load_known()[0] if k_["prop"] == prop}
     for i, d, rep in bad:
         k = known(d, rep) if known else None
-        if k:
+        # only what known_findings.txt lists (a 'known:' line with this key) is reported as a known finding; the file is never
+        # written at run time
+        if k and k[0] in listed:
             run_.known(k[0], k[1])
         else:
             run_.violation("concrete", d, rep)
